@@ -10,6 +10,10 @@ TRUST = ("Trusted base: the API-server / kubelet / cache models of internal/worl
 
 # id -> (cmd, category, technique, text, design_ref, note)
 CHECKS = {
+ "C01": ("c01", "model_checking", "bounded-exhaustive input enumeration against a reference model, helpers and real controller",
+         "Every (replicas, delete-slots annotation) pair of a bounded input space is fed to every client helper and to the real controller on an empty cluster (Parallel: one reconcile; OrderedReady: reconcile/kubelet loop to quiescence); results must equal the reference model 'first r non-negative integers not listed'.", "4/C01", TRUST),
+ "C15": ("c15", "model_checking", "bounded-exhaustive enumeration of CRD-admitted objects, each driven through a journey of real reconciles",
+         "Every manifest of a bounded product of field variants that a mini interpreter of manifests/crd.v1.yaml admits is reconciled by the real controller along a journey (create, steady, rollout, failed pod, scale-in, deletion) and against hand-made populations; no reconcile may panic.", "4/C15", TRUST),
  "C03": ("c03", "model_checking", "exhaustive snapshot enumeration of the real reconciler (explicit-state, one transition per state) with call-log monitors",
          "Every cluster snapshot of a bounded shape (spec grid x template history x pod population) is reconciled once by the real controller; every pod delete it issues is classified against the snapshot it saw. Exhaustive within the grid, never sampled.", "4/C03", TRUST),
  "C04": ("c04", "model_checking", "exhaustive snapshot enumeration of the real reconciler with call-log monitors",
